@@ -769,6 +769,10 @@ def rule_siblings(env, shared):
             # `c.then_some(v)` is None or Some(v), like the match it replaces (the condition is judged by ENDGUARD / COMPLETE)
             if x[0] == "call" and x[1] == "bool::then_some" and len(x[2]) == 2:
                 return ("phi", (("agg", "std::option::Option::None", ()), ("agg", "std::option::Option::Some", (x[2][1],))))
+            # `if c { Some(a) } else { Some(b) }` is Some(if c { a } else { b })
+            if x[0] == "phi" and len(x[1]) >= 2 and all(y[0] == "agg" and y[1].endswith("Option::Some") and len(y[2]) == 1
+                                                         for y in x[1]):
+                return ("agg", x[1][0][1], (("phi", tuple(y[2][0] for y in x[1])),))
             # `Some(v).filter(c)` is None or Some(v) as well
             if x[0] == "call" and x[1] == "Option::filter" and len(x[2]) == 2:
                 rc = x[2][0]
@@ -800,7 +804,7 @@ def rule_siblings(env, shared):
                     return flat
                 return ("phi", tuple(sorted(flat[1], key=lambda y: fmt(y))))
             return None
-        return fmt(r_m1.rewrite(r_m1.rewrite(r_m1.rewrite(m.canon(t), f), g0), g)).replace(adt, "X").replace(r["name"], "X")
+        return fmt(r_m1.rewrite(r_m1.rewrite(r_m1.rewrite(r_m1.rewrite(m.canon(t), f), g0), g0), g)).replace(adt, "X").replace(r["name"], "X")
 
     groups = {}
     known = [a for a, r in R.impl.items() if r["kind"] == "known"]
